@@ -2,10 +2,78 @@ import AsynqModel.Lib.Decorators
 /-! helper lemmas for C09: the model of every supported cell equals the reference table, for arbitrary arguments -/
 namespace AsynqModel.Decorators
 
+theorem modelCv_eq_ref_sync (k : Kind) (ft : FnType) (acc : Access) (bk : BodyKind) (a : Args)
+    (keyOf : Args → Args) (hf : Nat → Nat) (rs : Bool) (rel : Rel) (h : supported k ft acc = true) :
+    modelCv (Env.quiet keyOf hf rs) ⟨k, ft, acc, bk⟩ .sync a rel = refCv ⟨k, ft, acc, bk⟩ .sync a rel := by
+  cases k <;> cases ft <;> cases acc <;> cases bk <;> first | rfl | (simp [supported] at h)
+
+theorem modelCv_eq_ref_asynqValue (k : Kind) (ft : FnType) (acc : Access) (bk : BodyKind) (a : Args)
+    (keyOf : Args → Args) (hf : Nat → Nat) (rs : Bool) (rel : Rel) (h : supported k ft acc = true) :
+    modelCv (Env.quiet keyOf hf rs) ⟨k, ft, acc, bk⟩ .asynqValue a rel = refCv ⟨k, ft, acc, bk⟩ .asynqValue a rel := by
+  cases k <;> cases ft <;> cases acc <;> cases bk <;> first | rfl | (simp [supported] at h)
+
+theorem modelCv_eq_ref_yieldAsynq (k : Kind) (ft : FnType) (acc : Access) (bk : BodyKind) (a : Args)
+    (keyOf : Args → Args) (hf : Nat → Nat) (rs : Bool) (rel : Rel) (h : supported k ft acc = true) :
+    modelCv (Env.quiet keyOf hf rs) ⟨k, ft, acc, bk⟩ .yieldAsynq a rel = refCv ⟨k, ft, acc, bk⟩ .yieldAsynq a rel := by
+  cases k <;> cases ft <;> cases acc <;> cases bk <;> first | rfl | (simp [supported] at h)
+
+theorem modelCv_eq_ref_nestedSync (k : Kind) (ft : FnType) (acc : Access) (bk : BodyKind) (a : Args)
+    (keyOf : Args → Args) (hf : Nat → Nat) (rs : Bool) (rel : Rel) (h : supported k ft acc = true) :
+    modelCv (Env.quiet keyOf hf rs) ⟨k, ft, acc, bk⟩ .nestedSync a rel = refCv ⟨k, ft, acc, bk⟩ .nestedSync a rel := by
+  cases k <;> cases ft <;> cases acc <;> cases bk <;> first | rfl | (simp [supported] at h)
+
+theorem modelCv_eq_ref_asyncCall (k : Kind) (ft : FnType) (acc : Access) (bk : BodyKind) (a : Args)
+    (keyOf : Args → Args) (hf : Nat → Nat) (rs : Bool) (rel : Rel) (h : supported k ft acc = true) :
+    modelCv (Env.quiet keyOf hf rs) ⟨k, ft, acc, bk⟩ .asyncCall a rel = refCv ⟨k, ft, acc, bk⟩ .asyncCall a rel := by
+  cases k <;> cases ft <;> cases acc <;> cases bk <;> first | rfl | (simp [supported] at h)
+
+theorem modelCv_eq_ref_asyncCallSync (k : Kind) (ft : FnType) (acc : Access) (bk : BodyKind) (a : Args)
+    (keyOf : Args → Args) (hf : Nat → Nat) (rs : Bool) (rel : Rel) (h : supported k ft acc = true) :
+    modelCv (Env.quiet keyOf hf rs) ⟨k, ft, acc, bk⟩ .asyncCallSync a rel = refCv ⟨k, ft, acc, bk⟩ .asyncCallSync a rel := by
+  cases k <;> cases ft <;> cases acc <;> cases bk <;> first | rfl | (simp [supported] at h)
+
+theorem modelCv_eq_ref_getAsyncFn (k : Kind) (ft : FnType) (acc : Access) (bk : BodyKind) (a : Args)
+    (keyOf : Args → Args) (hf : Nat → Nat) (rs : Bool) (rel : Rel) (h : supported k ft acc = true) :
+    modelCv (Env.quiet keyOf hf rs) ⟨k, ft, acc, bk⟩ .getAsyncFn a rel = refCv ⟨k, ft, acc, bk⟩ .getAsyncFn a rel := by
+  cases k <;> cases ft <;> cases acc <;> cases bk <;> first | rfl | (simp [supported] at h)
+
+theorem modelCv_eq_ref_getAsyncOrSync (k : Kind) (ft : FnType) (acc : Access) (bk : BodyKind) (a : Args)
+    (keyOf : Args → Args) (hf : Nat → Nat) (rs : Bool) (rel : Rel) (h : supported k ft acc = true) :
+    modelCv (Env.quiet keyOf hf rs) ⟨k, ft, acc, bk⟩ .getAsyncOrSync a rel = refCv ⟨k, ft, acc, bk⟩ .getAsyncOrSync a rel := by
+  cases k <;> cases ft <;> cases acc <;> cases bk <;> first | rfl | (simp [supported] at h)
+
+theorem modelCv_eq_ref_getAsyncFnWrap (k : Kind) (ft : FnType) (acc : Access) (bk : BodyKind) (a : Args)
+    (keyOf : Args → Args) (hf : Nat → Nat) (rs : Bool) (rel : Rel) (h : supported k ft acc = true) :
+    modelCv (Env.quiet keyOf hf rs) ⟨k, ft, acc, bk⟩ .getAsyncFnWrap a rel = refCv ⟨k, ft, acc, bk⟩ .getAsyncFnWrap a rel := by
+  cases k <;> cases ft <;> cases acc <;> cases bk <;> first | rfl | (simp [supported] at h)
+
+theorem modelCv_eq_ref_twin (k : Kind) (ft : FnType) (acc : Access) (bk : BodyKind) (a : Args)
+    (keyOf : Args → Args) (hf : Nat → Nat) (rs : Bool) (rel : Rel) (h : supported k ft acc = true) :
+    modelCv (Env.quiet keyOf hf rs) ⟨k, ft, acc, bk⟩ .twin a rel = refCv ⟨k, ft, acc, bk⟩ .twin a rel := by
+  cases k <;> cases ft <;> cases acc <;> cases bk <;> first | rfl | (simp [supported] at h)
+
+/-- the conventions with ONE call: arbitrary key function, arbitrary hashes -/
+theorem modelCv_eq_ref_quiet (k : Kind) (ft : FnType) (acc : Access) (bk : BodyKind) (cv : Cv) (a : Args)
+    (keyOf : Args → Args) (hf : Nat → Nat) (rs : Bool) (rel : Rel)
+    (h : supported k ft acc = true) (hcv : cv.isSib = false) :
+    modelCv (Env.quiet keyOf hf rs) ⟨k, ft, acc, bk⟩ cv a rel = refCv ⟨k, ft, acc, bk⟩ cv a rel := by
+  cases cv
+  · exact modelCv_eq_ref_sync k ft acc bk a keyOf hf rs rel h
+  · exact modelCv_eq_ref_asynqValue k ft acc bk a keyOf hf rs rel h
+  · exact modelCv_eq_ref_yieldAsynq k ft acc bk a keyOf hf rs rel h
+  · exact modelCv_eq_ref_nestedSync k ft acc bk a keyOf hf rs rel h
+  · exact modelCv_eq_ref_asyncCall k ft acc bk a keyOf hf rs rel h
+  · exact modelCv_eq_ref_asyncCallSync k ft acc bk a keyOf hf rs rel h
+  · exact modelCv_eq_ref_getAsyncFn k ft acc bk a keyOf hf rs rel h
+  · exact modelCv_eq_ref_getAsyncOrSync k ft acc bk a keyOf hf rs rel h
+  · exact modelCv_eq_ref_getAsyncFnWrap k ft acc bk a keyOf hf rs rel h
+  · exact modelCv_eq_ref_twin k ft acc bk a keyOf hf rs rel h
+  all_goals simp [Cv.isSib] at hcv
+
 theorem modelCv_eq_ref (k : Kind) (ft : FnType) (acc : Access) (bk : BodyKind) (cv : Cv) (a : Args)
-    (keyOf : Args → Args) (h : supported k ft acc = true) :
-    modelCv (Env.idle keyOf) ⟨k, ft, acc, bk⟩ cv a = refCv ⟨k, ft, acc, bk⟩ cv a := by
-  cases k <;> cases cv <;> cases ft <;> cases acc <;> cases bk <;> first | rfl | (simp [supported] at h)
+    (keyOf : Args → Args) (h : supported k ft acc = true) (hcv : cv.isSib = false) :
+    modelCv (Env.idle keyOf) ⟨k, ft, acc, bk⟩ cv a = refCv ⟨k, ft, acc, bk⟩ cv a :=
+  modelCv_eq_ref_quiet k ft acc bk cv a keyOf id false .args h hcv
 
 theorem modelCls_eq_ref (k : Kind) (ft : FnType) (acc : Access) (bk : BodyKind) (h : supported k ft acc = true) :
     modelCls ⟨k, ft, acc, bk⟩ = refCls ⟨k, ft, acc, bk⟩ := by
@@ -44,17 +112,29 @@ theorem dedup_asynq_unfold (ft : FnType) (acc : Access) (bk : BodyKind) (a : Arg
        | none => .fut ⟨1, refArgs ft acc 0 a, false⟩) := by
   cases ft <;> cases acc <;> cases bk <;> first | rfl | (simp [supported] at h)
 
-theorem lookup_foreign (env : Env) (k : Args) (h : ∀ e ∈ env.tasks, e.1.1 ≠ 1) : env.lookup (1, k) = none := by
-  unfold Env.lookup
-  have : env.tasks.find? (fun e => decide (e.1 = (1, k))) = none := by
+/-- a dict lookup finds exactly the entry with the same key, whatever the hashes -/
+theorem dictFind_eq (hf : Nat → Nat) (l : Table) (k : Nat × Args) :
+    dictFind hf l k = (l.find? (fun e => decide (e.1 = k))).map (·.2) := by
+  unfold dictFind
+  congr 2
+  funext e
+  by_cases he : e.1 = k
+  · simp [he]
+  · simp [he]
+
+theorem dictFind_none (hf : Nat → Nat) (l : Table) (k : Nat × Args) (h : ∀ e ∈ l, e.1 ≠ k) :
+    dictFind hf l k = none := by
+  rw [dictFind_eq]
+  have : l.find? (fun e => decide (e.1 = k)) = none := by
     apply List.find?_eq_none.mpr
     intro e he
-    have := h e he
-    simp only [decide_eq_true_eq]
-    intro heq
-    apply this
-    rw [heq]
+    simpa using h e he
   rw [this]; rfl
+
+theorem lookup_foreign (env : Env) (k : Args) (h : ∀ e ∈ env.tasks, e.1.1 ≠ 1) : env.lookup (1, k) = none := by
+  apply dictFind_none
+  intro e he heq
+  exact h e he (by rw [heq])
 
 /-! the observer accepts a report compared with itself -/
 
@@ -71,16 +151,5 @@ theorem clsClause_self (c : Cls) : clsClause c c = none := by
 
 theorem reportClause_self (r : Report) : reportClause r r = none := by
   simp [reportClause, obsListClause_self, clsClause_self, Option.orElse]
-
-theorem modelReport_eq_ref (c : Case) (h : supported c.cell.kind c.cell.ft c.cell.acc = true) :
-    modelReport c = refReport c := by
-  obtain ⟨⟨k, ft, acc, bk⟩, raises, sig, args⟩ := c
-  simp only [modelReport, refReport, report, Report.mk.injEq]
-  refine ⟨?_, modelCls_eq_ref k ft acc bk h, modelRecv_eq_ref k ft acc bk h⟩
-  apply List.map_congr_left
-  intro cv _
-  have := modelCv_eq_ref k ft acc bk cv args id h
-  simp only [Env.idle] at this
-  simp only [Env.empty, this]
 
 end AsynqModel.Decorators
